@@ -18,8 +18,17 @@ class PlacementLoop(object):
         self.ctx = ctx
         cell = ctx.index.get_class(K.SCHED, 'Cell')
         self.cell = cell
-        func = K.one(K.methods_calling(cell, 'acquire_identity'),
-                     'Cell method that calls acquire_identity()')
+        cands = K.methods_calling(cell, 'acquire_identity')
+        if len(cands) > 1:
+            # the placement loop is the one that also places the instance
+            # it took the identity for; any other caller is reported by
+            # acquire_owner (C05.1 / C09.2), it does not hide the loop
+            placing = [f for f in cands
+                       if K.func_calls_method(f, 'put') and
+                       K.func_calls_method(f, 'feasible')]
+            if len(placing) == 1:
+                cands = placing
+        func = K.one(cands, 'Cell method that calls acquire_identity()')
         graph = ctx.cfg(func)
         sites = K.nodes_calling(
             graph, lambda c: K.is_meth(c, 'acquire_identity'))
@@ -281,3 +290,29 @@ def snapshot_brackets(ctx, rule):
                    'six.moves.zip', 'zip'),
                'the result pairs the two snapshots position by position',
                construct='result = zip(before, after)')
+
+
+def acquire_owner(ctx, rule):
+    """An identity is taken only by the placement loop: there the typestate
+    analysis ties it to a placement made (or the identity given back) in the
+    same iteration, and the placement that follows takes a fresh expiry, so
+    the new identity is published.  Any other caller of acquire_identity
+    changes an identity outside both arguments."""
+    loop = PlacementLoop(ctx)
+    index = ctx.index
+    mods = [index.module(K.SCHED), index.module(K.LOADER),
+            index.module(K.MASTER)]
+    count = 0
+    for mod in mods:
+        for func in mod.live_functions():
+            if func.name == 'acquire_identity':
+                continue
+            for call in K.calls(func.node):
+                if not K.is_meth(call, 'acquire_identity'):
+                    continue
+                count += 1
+                ctx.ob(rule, func, call, func is loop.func,
+                       'acquire_identity is called by the placement loop '
+                       '(%s) only' % loop.func.qualname,
+                       construct='caller of acquire_identity')
+    ctx.require(count >= 1, 'a caller of acquire_identity', rule=rule)
